@@ -48,12 +48,13 @@ type modelObs struct {
 	lines map[string]string // G M A V E W -> whole line
 	rows  map[string]string // "b y" -> cells
 	prev  map[string]string // rows as they were before this block (for rows the block does not print)
+	srows map[string]string // "b y" -> cached:runs of the run-level terminal (rows that changed)
 	tags  []string
 	X     string
 }
 
 func (d *driver) readBlock() (modelObs, error) {
-	o := modelObs{lines: map[string]string{}, rows: map[string]string{}, prev: map[string]string{}}
+	o := modelObs{lines: map[string]string{}, rows: map[string]string{}, prev: map[string]string{}, srows: map[string]string{}}
 	if d.all == nil {
 		d.all = map[string]string{}
 	}
@@ -84,6 +85,11 @@ func (d *driver) readBlock() (modelObs, error) {
 				o.rows[parts[1]+" "+parts[2]] = parts[3]
 			} else if len(parts) == 3 {
 				o.rows[parts[1]+" "+parts[2]] = ""
+			}
+		case 'S':
+			parts := strings.SplitN(line, " ", 4)
+			if len(parts) == 4 {
+				o.srows[parts[1]+" "+parts[2]] = parts[3]
 			}
 		case 'T':
 			if line != "T -" {
